@@ -101,7 +101,11 @@ func (c vVecCfg) NewWith(train [][]float32) (VectorIndex, error) {
 		}
 		nodes := make([]VectorNode, len(ts))
 		for i, v := range ts {
-			nodes[i] = *NewVectorNodeWithID(uint32(1000+i), vCopyVec(v))
+			if vTrainNoCopy {
+				nodes[i] = *NewVectorNodeWithID(uint32(1000+i), v) // the caller's own slice
+			} else {
+				nodes[i] = *NewVectorNodeWithID(uint32(1000+i), vCopyVec(v))
+			}
 		}
 		if err := idx.Train(nodes); err != nil {
 			return nil, err
@@ -109,6 +113,10 @@ func (c vVecCfg) NewWith(train [][]float32) (VectorIndex, error) {
 	}
 	return idx, nil
 }
+
+// vTrainNoCopy: hand the training slices themselves to Train (aliasing mode: a caller
+// that trains on its data and then adds the very same slices).
+var vTrainNoCopy bool
 
 func (c vVecCfg) exhaustive() bool {
 	return c.Kind == "flat" || c.Kind == "pq" || c.Kind == "ivf" || c.Kind == "ivfpq"
@@ -218,19 +226,21 @@ func vStoredVector(idx VectorIndex, id uint32) []float32 {
 // ---------------------------------------------------------------------------
 
 type vKindSys struct {
-	train   [][]float32                   // explicit training set (nil = cfg.Train)
-	hook    func(s *vKindSys, h []string) // extra per-state checks (C13, C14)
-	noMulti bool
-	c       *vCtx
-	cfg     vVecCfg
-	cfgS    string
-	ids     []uint32
-	vals    [][]float32
-	qs      []vVecQuery
-	idx     VectorIndex
-	m       *vVecModel
-	lvls    int         // number of non-zero hnsw levels used so far
-	qa      [][]float32 // query vectors (offset applied)
+	train      [][]float32                   // explicit training set (nil = cfg.Train)
+	hook       func(s *vKindSys, h []string) // extra per-state checks (C13, C14)
+	noMulti    bool
+	aliasTrain bool        // Add operations add the training slices themselves
+	owned      [][]float32 // the caller-owned slices of the current instance
+	c          *vCtx
+	cfg        vVecCfg
+	cfgS       string
+	ids        []uint32
+	vals       [][]float32
+	qs         []vVecQuery
+	idx        VectorIndex
+	m          *vVecModel
+	lvls       int         // number of non-zero hnsw levels used so far
+	qa         [][]float32 // query vectors (offset applied)
 }
 
 func newKindSys(c *vCtx, cfg vVecCfg, nids int) *vKindSys {
@@ -300,7 +310,19 @@ func newKindSys(c *vCtx, cfg vVecCfg, nids int) *vKindSys {
 }
 
 func (s *vKindSys) Reset() {
-	idx, err := s.cfg.NewWith(s.train)
+	train := s.train
+	if s.aliasTrain {
+		// fresh caller-owned slices for this instance; they are given to Train as they
+		// are and the Add operations below add the very same slices
+		s.owned = make([][]float32, len(s.train))
+		for i, v := range s.train {
+			s.owned[i] = vCopyVec(v)
+		}
+		train = s.owned
+		vTrainNoCopy = true
+	}
+	idx, err := s.cfg.NewWith(train)
+	vTrainNoCopy = false
 	if err != nil {
 		panic(fmt.Sprintf("%s: %v", s.cfgS, err))
 	}
@@ -341,8 +363,13 @@ func (s *vKindSys) Apply(op vOp, hist []vOp, check bool) {
 	switch op.K {
 	case "Add":
 		raw := s.vals[op.B]
+		arg := vCopyVec(raw)
+		if s.aliasTrain && op.B < len(s.owned) {
+			arg = s.owned[op.B] // the slice that was given to Train
+			raw = vCopyVec(s.train[op.B])
+		}
 		var err error
-		vWithLevel(op.C, func() { err = s.idx.Add(*NewVectorNodeWithID(uint32(op.A), vCopyVec(raw))) })
+		vWithLevel(op.C, func() { err = s.idx.Add(*NewVectorNodeWithID(uint32(op.A), arg)) })
 		if err != nil {
 			if check {
 				s.c.Violation("add-failed", "", s.cfgS, vHistStrings(append(hist, op)), err.Error())
